@@ -16,6 +16,11 @@ namespace TB
 /-- the source reads the blind level exactly once in startGame (regenerated from table_engine_stage.go) -/
 theorem C12_single_read_fact : Facts.startGameBlindRead = "*te.table.State.BlindState" := by decide
 
+/-- no step of the engine swaps the live table for another object (only `CreateTable` assigns it): a blind update, which
+takes no engine lock and writes into the live table, cannot be dropped with a table that is thrown away — it reaches
+the later hands (D31; regenerated from the source) -/
+theorem C12_live_table_never_swapped_fact : Facts.teTableAssigned = ["CreateTable"] := by decide
+
 /-- **C12 — the blind level published for a hand is the one in force when it opened** (and `BlindState` itself is
 not touched by the open). -/
 theorem C12_snapshot (s : State) (choice : Option Int) (createOk : Bool)
